@@ -142,10 +142,10 @@ CLAIMS = {
         "note": STD_NOTE + "Modelled, not verified: cloudpickle itself (parameter rt, hypothesis Faithful); call behaviour is one opaque token observed on sample arguments; type-level names (__class__, __doc__, ...) are outside 'attribute reads'; after arriving unwrapped further trips use cloudpickle; _wrap_objects_when_needed/WRAP_CACHE not covered. Known finding D12.",
     },
     "C15": {
-        "engine": "E2", "design_ref": "§5 C15", "drivers": ["pickle_driver"],
+        "engine": "E2+E1", "design_ref": "§5 C15", "drivers": ["pickle_driver"],
         "technique": "Lean 4: heap-cell model of dispatch tables (copy vs alias explicit) with a frame theorem over API histories + reducer algebra with a whole-graph round-trip theorem; differential run against the real reduction/queues/executor code with registry snapshots",
         "text": ("Part pickle - theorems (all registry contents, all reducer maps, all histories of set_loky_pickler / pickler creation / instance register / dumps / queue creation+put / executor creation, both back-ends): table of CustomizablePickler(reducers) = user over loky over (cloudpickle over) copyreg, built in a fresh dict; no history changes copyreg.dispatch_table, cloudpickle's table or loky's registry; a pickler's table depends only on the registries, the back-end at its creation and its own reducers; queues pickle with their own reducers; result_reducers=None means the job reducers; _reduce_partial/_reduce_method/_reduce_method_descriptor round-trip every well-formed graph of partials, bound methods, class methods and descriptors to itself. Correspondence: 2*10^4 (quick) cases on the real code - API histories with marker reducers installed in all three registries (every overlay order), observing the real pickler's table, the reducer actually used per probe instance and registry snapshots; loads(dumps(x)) structure and call-result behaviour for generated graphs through dumps and SimpleQueue, both back-ends. "
-                 "The clause 'the pickler selected when a task is submitted is the one its worker uses' is not decided yet (executor part pending; the pickler name is recorded at dispatch, DESIGN D9)."),
+                 "The clause 'the pickler selected when a task is submitted is the one its worker uses' has no theorem: it is decided on the real executor code by the E1 oracle (500 quick schedules with set_loky_pickler calls between submissions, dispatch and completion; the name in force inside each task body must be the one current at its submit). Defect D9 (name recorded at dispatch) was found that way and fixed (1b92ca6)."),
         "note": STD_NOTE + "pickle/cloudpickle trusted (table consulted for the probe types); methods reachable under their __name__; a partial's instance __dict__ is outside the property; POSIX registry; executors are constructed with a fork context and no worker is started in this part.",
     },
     "C17": {
